@@ -337,6 +337,21 @@ class CommandPipeline:
             # we get here if the process is not threadable or the
             # class is the real Popen
             PrevProcCloser(pipeline=self)
+            # ``!()`` gives the last stage a stderr pipe as well.  Nothing
+            # else reads it on this path: drain it on a background thread
+            # (as is done for stdout above), otherwise a child that writes
+            # more than one pipe capacity to stderr blocks for ever.
+            stderr = None
+            if (
+                self.captured == "object"
+                and not spec.threadable
+                and spec.captured_stderr is not None
+                and spec.captured_stderr is not spec.stderr
+                and safe_readable(spec.captured_stderr)
+            ):
+                stderr = NonBlockingFDReader(
+                    spec.captured_stderr.fileno(), timeout=timeout
+                )
             task = None
             if not isinstance(sys.exc_info()[1], SystemExit):
                 task = xj.wait_for_active_job()
@@ -351,6 +366,8 @@ class CommandPipeline:
                 if not spec.threadable:
                     for ch in spec.pipe_channels:
                         ch.close_writer()
+                if stderr is not None:
+                    self.stream_stderr(_read_all(stderr).splitlines(keepends=True))
                 if self.captured in ("object", "hiddenobject") and stdout:
                     yield from _drain_stdout(stdout)
                     self.end(tee_output=False)
